@@ -902,17 +902,24 @@ func (c *c38) oneBlock() {
 	case x == 3:
 		variant = "twice"
 	}
+	paid := 0
+	ok := func(r result) {
+		if r.OK {
+			paid++
+		}
+	}
 	switch variant {
 	case "absent":
 	case "not-generator":
-		c.payFees(c.w.Miners[(gi+1)%len(c.w.Miners)], fmt.Sprintf(`{"round":%d}`, rn), variant)
+		ok(c.payFees(c.w.Miners[(gi+1)%len(c.w.Miners)], fmt.Sprintf(`{"round":%d}`, rn), variant))
 	case "wrong-round":
-		c.payFees(gen, fmt.Sprintf(`{"round":%d}`, rn+1), variant)
+		ok(c.payFees(gen, fmt.Sprintf(`{"round":%d}`, rn+1), variant))
 	case "twice":
-		c.payFees(gen, fmt.Sprintf(`{"round":%d}`, rn), variant)
-		c.payFees(gen, fmt.Sprintf(`{"round":%d}`, rn), variant+"(second)")
+		ok(c.payFees(gen, fmt.Sprintf(`{"round":%d}`, rn), variant))
+		ok(c.payFees(gen, fmt.Sprintf(`{"round":%d}`, rn), variant+"(second)"))
 	default:
 		res := c.payFees(gen, fmt.Sprintf(`{"round":%d}`, rn), variant)
+		ok(res)
 		if res.Included && !res.OK {
 			c.logf("r%d payFees failed: %s", rn, trunc(res.Output, 160))
 			c.run.Count("payfees_failed:"+errClassStr(res.Output), 1)
@@ -920,7 +927,7 @@ func (c *c38) oneBlock() {
 	}
 	c.run.Count("payfees:"+variant, 1)
 	b := c.bc.Seal()
-	c.judgeViewChange(rn, b)
+	c.judgeViewChange(rn, b, paid, variant)
 	c.prev = b
 }
 
@@ -1040,8 +1047,17 @@ func (c *c38) judgeTransition(rn int64, before, mid, after vcState, paid int, va
 }
 
 // judgeViewChange: payFees hands the stored magic block to the chain at the view-change round, the block carries it.
-func (c *c38) judgeViewChange(rn int64, b *block.Block) {
+func (c *c38) judgeViewChange(rn int64, b *block.Block, paid int, variant string) {
 	ev := map[string]interface{}{"round": rn}
+	if b.MagicBlock != nil && paid == 0 {
+		// payFees hands the magic block to the block object before it checks who sent it; when that payFees then fails, its state
+		// changes are rolled back (the contract does not record the view change) but the block keeps the magic block. An honest
+		// generator's own payFees follows in the same block and records it; here the block had none (payFees variant of the workload).
+		// Not a view change as far as the contract's phase machine is concerned: the membership in force stays.
+		c.run.Count("observations:magic-block-put-on-block-by-failed-payfees:"+variant, 1)
+		c.logf("r%d block carries a magic block although no payFees succeeded (%s)", rn, variant)
+		return
+	}
 	if b.MagicBlock != nil {
 		c.run.Count("view_changes_in_blocks", 1)
 		c.run.Count("monitor:view-change-block", 1)
@@ -1283,7 +1299,9 @@ func c38Parent(tier string) int {
 	run.RequireMin("accepted:contributeMpk", int64(scale(tier, 30, 200)))
 	run.RequireMin("accepted:shareSignsOrShares", int64(scale(tier, 20, 150)))
 	run.Assume("move conditions are judged as necessary conditions only (elapsed rounds from the contract's PhaseRounds, number of keys / share sets against K, kept sharders against min_s, a previous-set miner among the keys); a restart that the statement would not require is not a violation")
-	run.Assume("the chain's own latest finalized magic block stays the genesis one (no finalization in this world); the contract keeps the magic block of each completed view change in its global node, and the oracle tracks the membership in force from the magic blocks that blocks actually carried")
+	run.Assume("the chain's own latest finalized magic block stays the genesis one (no finalization in this world); the contract keeps the magic block of each completed view change in its global node, and the oracle tracks the membership in force from the stored bytes of the magic blocks that blocks actually carried")
+	run.Assume("add_miner/add_sharder only take nodes of the chain's current magic block; every third history therefore installs a current magic block (number 2) that also lists 3 new miners and 1 new sharder while the latest finalized one stays genesis, and lowers k_percent/t_percent so that the newcomers alone reach K: only then can a key generation without a previous member be attempted at all")
+	run.Assume("one input class is switched off by default because it kills the process (VERIF_MINT_CRASHERS=1 enables it): in the publish phase a shareSignsOrShares whose id has no stored public key and that carries a revealed share panics in ShareOrSigns.Validate (nil map entry, block/sos.go) inside the contract goroutine")
 	run.Assume("DKG polynomials come from bls.MakeDKG (CSPRNG): key material differs between runs, the case classes are functions of VERIF_SEED")
 	return run.Finish()
 }
